@@ -7,6 +7,9 @@ PROP = {
   "saml2_tophat.response:AuthnResponse._assertion",
   "saml2_tophat.response:AuthnResponse.verify"
  ],
+ "bounded": [
+  "sig_table"
+ ],
  "level": "other",
  "explanation": "SP-side half of C17 under contract: every decrypted assertion that carries a signature has it verified against the decrypted text (decrypt_assertions, loop invariants over both loops); the checks of _assertion (validity window, audience, subject confirmations) are the same code for plain and decrypted assertions and AuthnResponse.verify keeps only assertions that passed them; text no configured key decrypts is returned unchanged by decrypt_keys (so it still holds an EncryptedAssertion and yields no assertion) and encrypt_assertion returns only non-empty tool output, never the clear statement. AuthnResponse.parse_assertion (the two decrypt while-loops) is an ASSUMED contract that verify is checked against. The IdP-side half (no identity data in clear in the emitted bytes, decryptable only with the SP's key) is a statement about what xmlsec1 writes and about Entity._response's string surgery; no contract within reach decides it.",
  "not_decided": [
